@@ -182,6 +182,10 @@ func vc_countingNoPanic(publicKey PublicKey, message, sig []byte, opts *Options)
 }
 
 func vh_C17_valid_batch_no_fallback() {
+	if modm.BitsPerLimb != 56 {
+		vNote("layout-independent skeleton harness: not run on the 32-bit limb layout")
+		return
+	}
 	n := 4
 	vReplicate = 0
 	switch vCase(0, 2) {
